@@ -190,3 +190,46 @@ func doCompileRun(src, text string) Outcome {
 	}
 	return doRun(v, text)
 }
+
+// treeSpawns reports whether the tree under test has go statements (from the
+// instrumenter's inventory). Checks whose property has no scheduling of its
+// own then draw a preemption plan for their single-task runs, so that the
+// interleaving of goroutines the code itself starts is explored and replayed.
+func treeSpawns(env *Env) bool {
+	var inv inventoryFile
+	return readJSON(env.Inventory, &inv) == nil && len(inv.GoStmts) > 0
+}
+
+// soloPlan draws a preemption plan for a single-task run of about estSteps
+// steps. Without go statements in the tree it draws nothing.
+func soloPlan(t *Tape, spawns bool, estSteps int) []simrt.Plan {
+	if !spawns {
+		return nil
+	}
+	var plan []simrt.Plan
+	if estSteps < 10 {
+		estSteps = 10
+	}
+	k := t.Range(0, 5)
+	ats := make([]int, k)
+	for i := range ats {
+		ats[i] = t.Range(1, estSteps)
+	}
+	sort.Ints(ats)
+	for _, a := range ats {
+		plan = append(plan, simrt.Plan{Kind: simrt.KStep, At: uint64(a), To: 1 + t.Draw(8)})
+	}
+	k = t.Range(0, 6)
+	at := uint64(0)
+	for i := 0; i < k; i++ {
+		at += uint64(t.Range(1, 6))
+		plan = append(plan, simrt.Plan{Kind: simrt.KAccess, At: at, To: 1 + t.Draw(8)})
+	}
+	k = t.Range(0, 3)
+	at = 0
+	for i := 0; i < k; i++ {
+		at += uint64(t.Range(1, 4))
+		plan = append(plan, simrt.Plan{Kind: simrt.KOp, At: at, To: 1 + t.Draw(8)})
+	}
+	return plan
+}
